@@ -253,7 +253,7 @@ def c12_applier(ctx):
 COMPOSER_ASSUME = [
     "documents are projected to (id, content digest) lists; absent / null / [] key, service and also-known-as lists "
     "are the same abstract document",
-    "the patch alphabet holds validated patches only (C13 decides what validation admits)",
+    "the patch alphabet holds validated patches (C13 decides what validation admits) and, for C12, six objects that are no patches (no / unknown action, the action's value member missing)",
     "RFC 6902 is modelled for object members one and two levels deep (no arrays)",
 ]
 
@@ -360,8 +360,10 @@ def c14(ctx):
 def c12_composer(ctx):
     only = "input-mutated,error-with-state,panic,failure-swallowed"
     for ov, label in composer_runs(ctx)[:2]:
+        ov = dict(ov)
+        # (patch objects that are no patches - no / unknown action, value member missing - are part of the lists here)
+        ov["WithBroken"] = "TRUE"
         if ctx.tier == "thorough" and "KIds" in ov:
-            ov = dict(ov)
             ov["MaxLen"] = 3
         ctx.tlc_pipe("MC_Composer.tla", "MC_Composer.cfg", ["composer-replay", "-only", only, "-private-states"], overrides=ov,
                      label="composer: input digests before/after, " + label, timeout=3000)
